@@ -227,16 +227,7 @@ for cls, tl, th in FELT_DOWN:
     W[f"p_felt_downcast_{cls}"] = (header(f"felt_downcast/{cls}", f"felt_downcast {tl} {th}", [ex]) + BI +
         f"fn main(v: felt252) -> Option<{T}> {{\n    bounded_int::downcast::<felt252, {T}>(v)\n}}\n")
 
-# Instantiations on which sierra-to-casm currently PANICS ("Wrong ap changes": validate_lt / validate_ge with a
-# bound of exactly 2^128 emit no tempvar while the declared ap change counts one) -- reported to the lead;
-# written to wrappers/pending/ (not part of the checked set) until /repo is fixed or a known finding is recorded.
-PENDING = ["p_downcast_around_2p128_above_to_upper_2p128", "p_downcast_around_2p128_below_from_2p128",
-           "p_downcast_shifted128_both_upper_2p128"]
-
 if __name__ == "__main__":
-    os.makedirs(os.path.join(HERE, "pending"), exist_ok=True)
-    for n in PENDING:
-        open(os.path.join(HERE, "pending", n + ".cairo"), "w").write(W.pop(n))
     keep = set()
     for name, src in sorted(W.items()):
         p = os.path.join(HERE, name + ".cairo")
